@@ -4,7 +4,9 @@
    The theorems are stated inside a Section for an ARBITRARY interval mass `mass a b` (= LevyMeasure.integrate) that is
    additive and non-negative ON INTERVALS NOT CONTAINING THE ORIGIN (so that infinite-activity measures qualify), over Q
    (see THEOREM_NOTES: the link to C09's real-valued closed forms is NOT formal), and for an arbitrary `mid` (= grid.middle
-   at one fixed level) with the stated properties; only the arithmetic mean `amid` is a PROVED instance of `mid`. *)
+   at one fixed level) with the stated properties; only the arithmetic mean `amid` is a PROVED instance of `mid`:
+   mid_between is required of ALL x < y, which CTMCGridProbabilityStep.middle violates (middle(-0.001, 0) = -h/2), so the
+   probability-step grid is covered by the per-state oracle of props/C01.py, not by these theorems. *)
 From Coq Require Import ZArith QArith List.
 From RV Require Import Base.QB Model.Grid Gen.GenC01Trunc Model.Chain Proofs.C13_Grid Proofs.C01_Chain Proofs.C01_Chain2d.
 Import ListNotations.
